@@ -576,6 +576,20 @@ type Converter interface {
 	MA(source WA, ctx autil.CtxT) WTA
 	MB(source WB) WTB
 }
+
+type SL struct{ V int }
+type TL struct{ V int }
+
+// localConv is an UNEXPORTED custom function of the output package of the variables block below.
+// goverter:context c
+func localConv(s SL, c autil.CtxT) TL { return TL{V: s.V + c.N} }
+
+// goverter:variables
+// goverter:extend localConv
+var (
+	// goverter:context ctx
+	ML func(source []SL, ctx autil.CtxT) []TL
+)
 `, name, first, second)
 		writeFiles(dir, map[string]string{"a/util/util.go": aUtil, "b/util/util.go": bUtil, "conv/conv.go": conv})
 		cases = append(cases, cc{name: name, dir: dir, note: first + " before " + second})
@@ -595,6 +609,10 @@ type Converter interface {
 		// the context must be passed as second argument of a/util.Conv and a/util.G, b/util's functions take only the source
 		okA := strings.Contains(body, ".Conv(source.F, context)") && strings.Contains(body, ".G(source.G, context)")
 		okB := strings.Contains(body, ".Conv(source.F)") && strings.Contains(body, ".G(source.K)")
+		if local := gr.Files["conv/conv.gen.go"]; !strings.Contains(local, "localConv(source[i], context)") {
+			okB = false
+			body += "\n--- conv/conv.gen.go ---\n" + local
+		}
 		if !okA || !okB {
 			results[i].viol = &core.Viol{Kind: "custom_function_roles", Case: c.name, Summary: "custom functions are called with the wrong argument roles", Detail: c.note + "\n" + body + "\n--- a/util/util.go ---\n" + string(src), Dir: c.dir}
 		}
